@@ -3,6 +3,7 @@
 -/
 import Keto.Model.Handlers
 import Keto.Props.C03
+import Keto.Proofs.FactsTie
 
 namespace Keto.H
 open Keto
@@ -75,6 +76,22 @@ theorem C08_batch_decisions (es : List Entry) (h : ∀ e ∈ es, EngOk e) :
     have := ih (fun x hx => h x (by simp [hx]))
     simp only [batch, List.map_cons] at *
     rw [he, this]
+
+/-- Batches of any size up to the configured maximum - the maximum itself included - are answered entry
+    by entry; only a larger batch is rejected, and then as a whole. The comparison is tied to the code:
+    both batch entry points test `len(tuples) > BatchCheckMaxBatchSize()` (`Facts.batchGuards`). -/
+theorem C08_batch_limit (max : Nat) (es : List Entry) :
+    (es.length ≤ max → batchLimited max es = some (batch es)) ∧
+    (max < es.length → batchLimited max es = none) ∧
+    Facts.batchGuards = FactsTie.expectedBatchGuards := by
+  refine ⟨fun h => ?_, fun h => ?_, FactsTie.batchGuards_tie⟩
+  · simp [batchLimited, Nat.not_lt.mpr h]
+  · simp [batchLimited, h]
+
+-- non-vacuity: a batch of exactly the default maximum size (10, from the configuration schema) is answered
+example : Facts.defaultMaxBatchCheckSize = 10 ∧
+    (batchLimited Facts.defaultMaxBatchCheckSize (List.replicate 10 ⟨true, true, Res.isM⟩)).isSome = true ∧
+    (batchLimited Facts.defaultMaxBatchCheckSize (List.replicate 11 ⟨true, true, Res.isM⟩)).isSome = false := by decide
 
 -- non-vacuity: an allowed entry, a denied entry, an unknown namespace and a malformed
 -- entry in one batch
